@@ -110,6 +110,7 @@ func findTarShape(p *load.Program) *tarShape {
 }
 
 func runC12(c *core.Ctx) {
+	runFixtures(c, "drop", "valid")
 	c.Explain("Structural clauses of C12 decided from source (thin: contents, modes, 'nothing else' and writer schedules are behaviour): (R12.1) every read of archive/tar.Header.Name in package tar is passed through the normaliser (path.Clean + leading-\"/\" trim) and the normalised name reaches only calls on the destination file system (interface methods, FS helpers), the announce key and path.Dir — package tar contains no primitive sink, so an escaping '../x' is refused by the destination's own validation (C04/A1); (R12.2) the error of every destination-FS call and every copy step in the unpack functions and their background closures propagates: returned, wrapped, or sent on the error channel whose receive ends the unpack with that error (accepted: errors.Is(ErrExist) on Mkdir of a directory entry, which continues with Chmod; io.EOF on the tar stream); (R12.3) on that ErrExist edge Chmod is called with the header's mode; (R12.4) the destination calls for an entry are made after the success edge of creating its parent path; (R12.5) every buffer taken from a pool is given back on every path that does not end the unpack with an error, closure continuations included. NOT claimed: the resulting tree.")
 	c.Assume("A1: the destination file system rejects names that would escape its root", "A2: archive/tar, path, io behave as documented")
 	c.RuleDoc("R12.1", "header names normalised and only delegated")
@@ -128,7 +129,7 @@ func runC12(c *core.Ctx) {
 		r12Drop(c, p, sh)
 		r12DirMode(c, p, sh)
 		r12Parents(c, p, sh)
-		r12Buffers(c, p, sh)
+		r12Buffers(c, p, sh, "R12.5")
 	}
 	c.Floor("R12.1", 2)
 	c.Floor("R12.2", 8)
@@ -464,7 +465,7 @@ func r12Parents(c *core.Ctx, p *load.Program, sh *tarShape) {
 		fmt.Sprintf("%s: the entry is created at %v without being on the success edge of creating its parent directories", fname(fn), bad))
 }
 
-func r12Buffers(c *core.Ctx, p *load.Program, sh *tarShape) {
+func r12Buffers(c *core.Ctx, p *load.Program, sh *tarShape, rule string) {
 	fn := sh.process
 	for _, b := range fn.Blocks {
 		for idx, ins := range b.Instrs {
@@ -538,13 +539,13 @@ func r12Buffers(c *core.Ctx, p *load.Program, sh *tarShape) {
 				End: func(s *ssax.PathState, last ssa.Instruction) {
 					r := last.(*ssa.Return)
 					e := s.Resolve(r.Results[eidx])
-					failing := !(ssax.IsNilConst(e) || s.NilOf(e) == ssax.IsNil)
+					failing := s.NilOf(e) == ssax.NonNil // only a definitely failing exit may keep the buffer
 					if s.Counts["done"] == 0 && !failing && leak == "" {
 						leak = p.Pos(r.Pos())
 					}
 				},
 			})
-			c.Check(leak == "", "R12.5", key, p.Pos(cl.Pos()), "given back (directly or by the spawned writer) on every path that lets the unpack continue",
+			c.Check(leak == "", rule, key, p.Pos(cl.Pos()), "given back (directly or by the spawned writer) on every path that lets the unpack continue",
 				fmt.Sprintf("%s: the buffer taken at %s is not returned to its pool on the path ending at %s although the unpack continues: after as many entries as the pool holds the reader blocks forever", fname(fn), p.Pos(cl.Pos()), leak))
 		}
 	}
